@@ -170,6 +170,13 @@ class BitEval:
                 return [_or(x, y) for x, y in zip(a, b)]
             if op == 'BitXor':
                 return [_xor(x, y) for x, y in zip(a, b)]
+            if op in ('Mul', 'MulUnchecked', 'MulWithOverflow'):
+                # multiplication by a constant power of two is a left shift (modulo the width)
+                for x_, y_ in ((a, e[3]), (b, e[2])):
+                    c_ = const_val(y_)
+                    if c_ is not None and c_ > 0 and c_ & (c_ - 1) == 0:
+                        n = c_.bit_length() - 1
+                        return ([0] * n + x_)[:w]
             if op in ('Add', 'AddUnchecked', 'AddWithOverflow') and all(x == 0 or y == 0 for x, y in zip(a, b)):
                 # the operands occupy disjoint bit positions: no carry can arise, the sum is their union
                 return [_or(x, y) for x, y in zip(a, b)]
@@ -194,6 +201,9 @@ class BitEval:
         if k == 'call':
             name = e[1]
             if name in TRANSPARENT or name in UNWRAPS:
+                return self.bits(e[2][0])
+            if re.search(r'(Result|Option)::<[^>]*>::(unwrap|expect)$|convert::TryInto::try_into$|convert::TryFrom::try_from$|convert::Into::into$', name) and e[2]:
+                # value-preserving when it returns at all (failure is a panic, C01's concern)
                 return self.bits(e[2][0])
             m = re.search(r'core::num::<impl (u8|u16|u32|u64|u128|usize)>::from_(be|le)_bytes$', name)
             if m:
